@@ -8,7 +8,7 @@
    This file contains only statements closed by `exact`, their assumptions and non-vacuity examples.
    Generated once by tools/genprops.py from the proved lemmas (statements restated verbatim). *)
 From Coq Require Import List NArith ZArith Bool Lia.
-From Viv Require Import Base.Assoc Base.Tree Model.Paths Model.Wire Proofs.Paths_proofs Proofs.Wire_proofs.
+From Viv Require Import Base.Assoc Base.Tree Model.Paths Model.Wire Proofs.Paths_proofs Proofs.Wire_proofs Proofs.WireStar_proofs.
 Import ListNotations.
 
 (* read/write symmetry: if the read view maps the declared variable vp to the node r, inverse_topology turns an update of vp into an update of exactly r, for plain paths, ".." anywhere, _path dicts with listed and unlisted sub-keys, _path-less dicts, any nesting, the process at any depth *)
@@ -102,6 +102,102 @@ Theorem C06_abs_keys_dn :
 Proof. exact @abs_keys_dn. Qed.
 Print Assumptions C06_abs_keys_dn.
 
+(* READ/WRITE SYMMETRY THROUGH GLOB PORTS: for schemas whose nodes are globs or have named unique keys, wired by tuple paths or by dicts with a "*" sub-topology (_path beside it, inside it or both) that lists every sub-variable: if the view maps the variable path vp (through any number of children) to the node r, the inverse of the singleton update of vp is the singleton update of r; the theorem for named ports (rw_symmetry_partial) is an instance (wf_pair_wfs) *)
+Theorem C06_rw_symmetry_star_gen :
+  forall (fixed : bool) (t : store) (a : list key) (c : list (pkey * schema))
+           (tp : list (pkey * topo)) (v : vtree) (vp r : list key) (z : Z),
+         wfs (SNode false c) tp true = true ->
+         svar_path (SNode false c) vp = true ->
+         view t a (SNode false c) tp = Ok v ->
+         vget v vp = Some (VRef r) ->
+         invert fixed a (usingle_top vp (UV z)) tp = Ok (usingle_top r (UV z)).
+Proof. exact @rw_symmetry_star_gen. Qed.
+Print Assumptions C06_rw_symmetry_star_gen.
+
+(* ... stated for a glob port k, a current child ch and a variable of the sub-schema *)
+Theorem C06_rw_symmetry_star :
+  forall (t : store) (a : list key) (c : list (pkey * schema)) (tp : list (pkey * topo))
+           (v : vtree) (k ch : key) (rest : list key) (sub : schema) (r : list key) 
+           (z : Z),
+         wfs (SNode false c) tp true = true ->
+         plook (PK k) c = Some (SNode false [(PStar, sub)]) ->
+         svar_path sub rest = true ->
+         view t a (SNode false c) tp = Ok v ->
+         vget v (k :: ch :: rest) = Some (VRef r) ->
+         invert true a (usingle_top (k :: ch :: rest) (UV z)) tp = Ok (usingle_top r (UV z)).
+Proof. exact @rw_symmetry_star. Qed.
+Print Assumptions C06_rw_symmetry_star.
+
+(* ... when the ports schema itself is a glob *)
+Theorem C06_rw_symmetry_star_top :
+  forall (t : store) (a : list key) (tp : list (pkey * topo)) (v : vtree) 
+           (ch : key) (rest : list key) (sub : schema) (r : list key) (z : Z),
+         wfs (SNode false [(PStar, sub)]) tp true = true ->
+         svar_path sub rest = true ->
+         view t a (SNode false [(PStar, sub)]) tp = Ok v ->
+         vget v (ch :: rest) = Some (VRef r) ->
+         invert true a (usingle_top (ch :: rest) (UV z)) tp = Ok (usingle_top r (UV z)).
+Proof. exact @rw_symmetry_star_top. Qed.
+Print Assumptions C06_rw_symmetry_star_top.
+
+(* the well-formedness of the named-port theorem implies the one used here *)
+Theorem C06_wf_pair_wfs :
+  forall (s : schema) (tp : list (pkey * topo)) (na : bool),
+         wf_pair s tp na = true -> tp_ok tp = true -> wfs s tp na = true.
+Proof. exact @wf_pair_wfs. Qed.
+Print Assumptions C06_wf_pair_wfs.
+
+(* two variables of two different children updated together both arrive, each at its node *)
+Theorem C06_rw_symmetry_star_two :
+  forall (fixed : bool) (t : store) (a : list key) (c : list (pkey * schema))
+           (tp : list (pkey * topo)) (v : vtree) (k ch1 : key) (rest1 : list key) 
+           (ch2 : key) (rest2 : list key) (sub : schema) (r1 r2 : list key) 
+           (z1 z2 : Z) (cp : list key) (h1 : key) (t1 : list key) (h2 : key) 
+           (t2 : list key),
+         wfs (SNode false c) tp true = true ->
+         plook (PK k) c = Some (SNode false [(PStar, sub)]) ->
+         svar_path sub rest1 = true ->
+         svar_path sub rest2 = true ->
+         view t a (SNode false c) tp = Ok v ->
+         vget v (k :: ch1 :: rest1) = Some (VRef r1) ->
+         vget v (k :: ch2 :: rest2) = Some (VRef r2) ->
+         ch1 <> ch2 ->
+         r1 = cp ++ h1 :: t1 ->
+         r2 = cp ++ h2 :: t2 ->
+         h1 <> h2 ->
+         invert fixed a [(k, UD [(ch1, usingle rest1 (UV z1)); (ch2, usingle rest2 (UV z2))])] tp =
+         Ok (usingle_top cp (UD [(h1, usingle t1 (UV z1)); (h2, usingle t2 (UV z2))])).
+Proof. exact @rw_symmetry_star_two. Qed.
+Print Assumptions C06_rw_symmetry_star_two.
+
+(* two variables of one child updated together both arrive *)
+Theorem C06_rw_symmetry_star_two_vars :
+  forall (fixed : bool) (t : store) (a : list key) (c : list (pkey * schema))
+           (tp : list (pkey * topo)) (v : vtree) (k ch x1 : key) (rest1 : list key) 
+           (x2 : key) (rest2 : list key) (o2 : bool) (c2 : list (pkey * schema)) 
+           (r1 r2 : list key) (z1 z2 : Z) (cp : list key) (h1 : key) (t1 : list key) 
+           (h2 : key) (t2 : list key),
+         wfs (SNode false c) tp true = true ->
+         plook (PK k) c = Some (SNode false [(PStar, SNode o2 c2)]) ->
+         glob_of c2 = None ->
+         svar_path (SNode o2 c2) (x1 :: rest1) = true ->
+         svar_path (SNode o2 c2) (x2 :: rest2) = true ->
+         view t a (SNode false c) tp = Ok v ->
+         vget v (k :: ch :: x1 :: rest1) = Some (VRef r1) ->
+         vget v (k :: ch :: x2 :: rest2) = Some (VRef r2) ->
+         x1 <> x2 ->
+         r1 = cp ++ h1 :: t1 ->
+         r2 = cp ++ h2 :: t2 ->
+         h1 <> h2 ->
+         invert fixed a
+           [(k, UD [(ch, UD [(x1, usingle rest1 (UV z1)); (x2, usingle rest2 (UV z2))])])] tp =
+         Ok (usingle_top cp (UD [(h1, usingle t1 (UV z1)); (h2, usingle t2 (UV z2))])) \/
+         invert fixed a
+           [(k, UD [(ch, UD [(x1, usingle rest1 (UV z1)); (x2, usingle rest2 (UV z2))])])] tp =
+         Ok (usingle_top cp (UD [(h2, usingle t2 (UV z2)); (h1, usingle t1 (UV z1))])).
+Proof. exact @rw_symmetry_star_two_vars. Qed.
+Print Assumptions C06_rw_symmetry_star_two_vars.
+
 
 (* ---- non-vacuity: a nested example with '..' paths, a '_path' dict with a redirected sub-key ---- *)
 Definition ex_lf := Lf {| l_val := Some 1%Z; l_def := Some 1%Z; l_units := None; l_ser := None |}.
@@ -117,4 +213,10 @@ Example ex_hyps : wf_pair (SNode false ex_c) ex_tp true = true /\ tp_ok ex_tp = 
 Proof. repeat split; try reflexivity. eexists. split; reflexivity. Qed.
 Example ex_invert : invert true [1%N] (usingle_top [11%N; 5%N] (UV 5%Z)) ex_tp = Ok (usingle_top [4%N; 9%N] (UV 5%Z)).
 Proof. reflexivity. Qed.
+
+(* hypotheses satisfiable (stores built by generate, two children), and what is false outside them *)
+Check StarEx.rw_symmetry_star_beside_sat.
+Check StarEx.rw_symmetry_star_inside_sat.
+Check StarCx.star_unlisted_counterexample.
+Check StarCx.star_named_sibling_counterexample.
 
